@@ -16,12 +16,12 @@ import (
 // C08 — genuine IdP responses are accepted and reproduced faithfully in every layout.
 
 type C08Case struct {
-	SP       h.SPConfig  `json:"sp"`
-	Issue    *h.Genuine  `json:"issue"` // how the message was produced (informational for replay; model is the oracle)
-	Encoded  string      `json:"encoded"`
-	Encoded2 string      `json:"encoded2"` // a second layout of the same signed tree
-	Feat     []string    `json:"features"`
-	CRValues bool        `json:"crValues"`
+	SP       h.SPConfig `json:"sp"`
+	Issue    *h.Genuine `json:"issue"` // how the message was produced (informational for replay; model is the oracle)
+	Encoded  string     `json:"encoded"`
+	Encoded2 string     `json:"encoded2"` // a second layout of the same signed tree
+	Feat     []string   `json:"features"`
+	CRValues bool       `json:"crValues"`
 }
 
 func trustedStore(t *rapid.T) ([]h.CertRef, []string) {
